@@ -193,6 +193,7 @@ pub fn small_tree(ncfg: NodeCfg, parents: &[usize], gt_mask: u32, with_txs: bool
                     routers: vec![],
                     with_path: false,
                     max_inputs: 1,
+                    nft: false,
                 }]
             } else {
                 vec![]
